@@ -163,6 +163,25 @@ def build(variant, tag=None, guard=None, extra_cflags=()):
     return paths
 
 
+def build_ref():
+    """reference tools that do not depend on /repo (ref/*.c) -> /verif/build/ref/"""
+    outdir = os.path.join(BUILD_ROOT, "ref")
+    os.makedirs(outdir, exist_ok=True)
+    res = {}
+    for name in ("reftool", "c07oracle"):
+        src = os.path.join(VERIF, "ref", name + ".c")
+        if not os.path.exists(src):
+            continue
+        exe = os.path.join(outdir, name)
+        h = hashlib.sha256(open(src, "rb").read()).hexdigest()
+        st = exe + ".stamp"
+        if not (os.path.exists(exe) and os.path.exists(st) and open(st).read() == h):
+            _run(["gcc", "-O2", "-g", "-Wall", src, "-o", exe, "-lm"])
+            open(st, "w").write(h)
+        res[name] = exe
+    return res
+
+
 if __name__ == "__main__":
     import time
     for v in sys.argv[1:] or ["asan"]:
